@@ -321,9 +321,15 @@ def run(ctx: Ctx) -> None:
     nr = gt.func("nondefault_repr")
     # the function that does the work: the one (nested, module-level, or nondefault_repr itself) that walks the dataclass fields
     cands = [x for x in ast.walk(nr) if isinstance(x, ast.FunctionDef)]
-    for c_ in ast.walk(nr):
-        if isinstance(c_, ast.Call) and isinstance(c_.func, ast.Name) and gt.has_func(c_.func.id):
-            cands.append(gt.func(c_.func.id))
+    todo_ = [nr]
+    seen_f = set()
+    while todo_:
+        cur_ = todo_.pop()
+        for c_ in ast.walk(cur_):
+            if isinstance(c_, ast.Call) and isinstance(c_.func, ast.Name) and gt.has_func(c_.func.id) and c_.func.id not in seen_f:
+                seen_f.add(c_.func.id)
+                cands.append(gt.func(c_.func.id))
+                todo_.append(gt.func(c_.func.id))
     def own_nodes(f):
         return [x for x in walk_local(f)]
     walkers = [f for f in cands if any(isinstance(x, ast.Attribute) and x.attr in ("repr", "compare") for x in own_nodes(f)) and any(isinstance(x, ast.For) for x in own_nodes(f))]
@@ -369,6 +375,30 @@ def run(ctx: Ctx) -> None:
         handled.add("Dict")
     ctx.ob("R20.5", "gentest:nondefault_repr|container kinds of ParsedData are handled", kinds <= handled and "is_dataclass(o)" in txt,
            msg=f"container kinds in the result types: {sorted(kinds)}; handled by the type switch: {sorted(handled)}", node=inner, mod=gt, detail={"classes": len(seen)})
+    # the walker's locals by role, so that the text comparisons below do not depend on what they are called
+    import copy as _copy
+    from ..normalize import _Renamer
+    role: Dict[str, str] = {}
+    ps_ = [a_.arg for a_ in inner.args.args if a_.arg not in ("self", "cls")]
+    if ps_:
+        role[ps_[0]] = "o"
+    for x in walk_local(inner):
+        if isinstance(x, ast.For) and isinstance(x.target, ast.Name) and isinstance(x.iter, ast.Call) and norm(x.iter.func).split(".")[-1] in ("fields", "get_fields"):
+            role[x.target.id] = "f"
+    fvar = next((k for k, v_ in role.items() if v_ == "f"), None)
+    for x in walk_local(inner):
+        if isinstance(x, ast.Assign) and len(x.targets) == 1 and isinstance(x.targets[0], ast.Name) and fvar:
+            vt = norm(x.value)
+            if vt.startswith("getattr(") and f"{fvar}.name" in vt:
+                role[x.targets[0].id] = "v"
+            elif vt in (f"{fvar}.default_factory()", f"{fvar}.default"):
+                role[x.targets[0].id] = "default"
+        if isinstance(x, ast.Call) and isinstance(x.func, ast.Attribute) and x.func.attr == "append" and isinstance(x.func.value, ast.Name) and fvar and f"{fvar}.name" in norm(x):
+            role[x.func.value.id] = "vals"
+    role = {k: v_ for k, v_ in role.items() if k != v_}
+    if role and len(set(role.values())) == len(role) and not (set(role.values()) & ({n_.id for n_ in ast.walk(inner) if isinstance(n_, ast.Name)} - set(role))):
+        inner = _Renamer(dict(role)).visit(_copy.deepcopy(inner))
+        ast.fix_missing_locations(inner)
     icfg2 = CFG(inner)
     apps = [n for n in icfg2.nodes if n.kind == "stmt" and isinstance(n.stmt, ast.Expr) and isinstance(n.stmt.value, ast.Call) and norm(n.stmt.value.func) == "vals.append" and "f.name" in norm(n.stmt.value)]
     ok = len(apps) == 1
@@ -399,6 +429,46 @@ def run(ctx: Ctx) -> None:
     wtxt = (norm(nr) + "\n" + norm(inner)).replace("dataclasses.MISSING", "MISSING")
     plain_default = wtxt.replace("f.default_factory", "")
     ok = "f.default_factory is not MISSING" in wtxt and "f.default_factory()" in wtxt and "f.default" in plain_default
+    # what is not a dataclass or a container is printed with repr(): the only rendering that eval() is the inverse of for
+    # every str / int / bool / None (json.dumps, str() or hand-made quoting are not: surrogates, quotes, non-finite floats)
+    wnames = {f_.name for f_ in [nr, inner] + [x for x in ast.walk(nr) if isinstance(x, ast.FunctionDef)]} | {c_.func.id for f_ in [nr, inner] for c_ in ast.walk(f_) if isinstance(c_, ast.Call) and isinstance(c_.func, ast.Name) and gt.has_func(c_.func.id)}
+    leaf_funcs = [gt.func(nm) for nm in sorted(wnames) if gt.has_func(nm)] + [x for x in ast.walk(nr) if isinstance(x, ast.FunctionDef)]
+    leaf_funcs = list({id(f_): f_ for f_ in leaf_funcs}.values())
+    # only the functions that produce the text: those with a composite return, and those whose result is returned by one of them
+    def composite_ret(v_) -> bool:
+        return any((isinstance(c_, ast.Call) and ((isinstance(c_.func, ast.Name) and c_.func.id in wnames) or (isinstance(c_.func, ast.Attribute) and c_.func.attr == "join"))) for c_ in ast.walk(v_))
+    producing = {f_.name for f_ in leaf_funcs if any(isinstance(r_, ast.Return) and r_.value is not None and composite_ret(r_.value) for r_ in walk_local(f_))}
+    grew = True
+    while grew:
+        grew = False
+        for f_ in leaf_funcs:
+            if f_.name not in producing:
+                continue
+            for r_ in walk_local(f_):
+                if isinstance(r_, ast.Return) and r_.value is not None:
+                    for c_ in ast.walk(r_.value):
+                        if isinstance(c_, ast.Call) and isinstance(c_.func, ast.Name) and c_.func.id in wnames and c_.func.id not in producing:
+                            producing.add(c_.func.id)
+                            grew = True
+    leaf_funcs = [f_ for f_ in leaf_funcs if f_.name in producing]
+    bad_leaf = []
+    n_leaf = 0
+    for f_ in leaf_funcs:
+        for r_ in walk_local(f_):
+            if not isinstance(r_, ast.Return) or r_.value is None:
+                continue
+            v_ = r_.value
+            locals_ = {t_.id for x_ in walk_local(f_) if isinstance(x_, (ast.Assign, ast.AnnAssign, ast.AugAssign, ast.For)) for tg_ in (x_.targets if isinstance(x_, ast.Assign) else [x_.target])
+                       for t_ in ast.walk(tg_) if isinstance(t_, ast.Name)}
+            composite = composite_ret(v_) or any(isinstance(y_, ast.Name) and y_.id in locals_ for y_ in ast.walk(v_))
+            if composite:
+                continue
+            n_leaf += 1
+            if not (isinstance(v_, ast.Call) and isinstance(v_.func, ast.Name) and v_.func.id == "repr" and len(v_.args) == 1 and isinstance(v_.args[0], ast.Name)):
+                bad_leaf.append(short(r_, 50))
+    ctx.ob("R20.5", "gentest:nondefault_repr|leaves are printed with repr()", n_leaf >= 1 and not bad_leaf,
+           msg=f"{bad_leaf or 'no leaf rendering found'}: a value that is neither a dataclass nor a container is not rendered with repr(), so eval() of the generated text need not give the value back (non-BMP characters through json.dumps come back as surrogates)",
+           node=inner, mod=gt, nontrivial=False)
     # nothing computed for one field of one object is kept for another: every function involved writes only to its own locals
     shared_writes = []
     funcs20 = list({id(f_): f_ for f_ in [nr, inner] + [x for x in ast.walk(nr) if isinstance(x, ast.FunctionDef)] + [x for x in ast.walk(inner) if isinstance(x, ast.FunctionDef)]}.values())
